@@ -641,6 +641,92 @@ static void lsqOracle(vh::Out &out, const std::string &id, const Case &c) {
   }
 }
 
+// PQ — penalised two-pin least squares (clause "for nets with two pins ... the result is the weighted least-squares optimum of
+// the documented quadratic model", with the penalty term): every net has exactly two pins at distinct positions, so that
+// under BoundToBound, Star and Clique alike it is ONE spring of stiffness W / max(eps, |p0 - p1|) (positions taken at the
+// linearisation placement `pl`); every cell i carries the penalty spring strength_i / max(|pl_i - target_i|, cutoff) towards
+// target_i — at its stiffest, strength_i / cutoff, when the cell sits exactly on its target (one cell in four does).
+// solveWithPenalty must return the minimiser of that quadratic (normal equations built here in double, dense solve).
+static void penalisedTwoPinOracle(vh::Out &out, const std::string &id, vh::Rng &g) {
+  Case c;
+  c.nbCells = (int)g.range(1, 6);
+  c.mode = (int)g.range(1, 3);
+  c.eps = g.chance(1, 2) ? pow2((int)g.range(-1, 3)) : (float)g.range(1, 80) / 10.0f;
+  for (int i = 0; i < c.nbCells; ++i) c.pl.push_back((float)g.range(-30, 30));
+  int nn = (int)g.range(1, 2 * c.nbCells + 1);
+  for (int k = 0; k < nn; ++k) {
+    RawNet n;
+    int a = (int)g.range(0, c.nbCells - 1);
+    float oa = (float)g.range(-6, 6) / 2.0f;
+    bool fixedOther = c.nbCells == 1 || g.chance(1, 2);
+    if (fixedOther) {
+      float pos = (float)g.range(-80, 80) / 2.0f;
+      if (pos == c.pl[a] + oa) pos += 1.5f;
+      n.cells = {a, -1};
+      n.offs = {oa, pos};
+      if (g.chance(1, 2)) { std::swap(n.cells[0], n.cells[1]); std::swap(n.offs[0], n.offs[1]); }
+    } else {
+      int b = (int)g.range(0, c.nbCells - 2);
+      if (b >= a) ++b;
+      float ob = (float)g.range(-6, 6) / 2.0f;
+      if (c.pl[a] + oa == c.pl[b] + ob) ob += 0.5f;
+      n.cells = {a, b};
+      n.offs = {oa, ob};
+    }
+    n.w = anyWeight(g);
+    if (n.w <= 0) n.w = 0.3f;
+    c.nets.push_back(n);
+  }
+  c.hasPen = true;
+  c.cutoff = g.chance(1, 2) ? pow2((int)g.range(-1, 4)) : (float)g.range(1, 120) / 10.0f;
+  int ties = 0;
+  for (int i = 0; i < c.nbCells; ++i) {
+    bool tie = g.chance(1, 4);
+    ties += tie;
+    c.target.push_back(tie ? c.pl[i] : c.pl[i] + (float)g.range(-40, 40) / 2.0f);
+    c.strength.push_back(tie ? std::max(anyWeight(g), 0.5f) : (g.chance(1, 6) ? 0.0f : anyWeight(g)));
+  }
+  std::string in = c.str(false);
+  vh::setCase(id, in);
+  out.evaluations++;
+  out.count(std::string("PQ_mode_") + MODE_NAME[c.mode]);
+  if (ties) out.count("PQ_cases_with_a_cell_on_its_target");
+  Dense d(c.nbCells);
+  auto pos = [&](int cell, float off) { return cell >= 0 ? (double)c.pl[cell] + (double)off : (double)off; };
+  for (auto &n : c.nets) {
+    double k = (double)n.w / std::max((double)c.eps, std::fabs(pos(n.cells[0], n.offs[0]) - pos(n.cells[1], n.offs[1])));
+    int ca = n.cells[0], cb = n.cells[1];
+    double oa = n.offs[0], ob = n.offs[1];
+    if (ca >= 0) { d.at(ca, ca) += k; d.b[ca] += k * (ob - oa); d.babs[ca] += std::fabs(k * (ob - oa)); }
+    if (cb >= 0) { d.at(cb, cb) += k; d.b[cb] += k * (oa - ob); d.babs[cb] += std::fabs(k * (oa - ob)); }
+    if (ca >= 0 && cb >= 0) { d.at(ca, cb) -= k; d.at(cb, ca) -= k; }
+  }
+  for (int i = 0; i < c.nbCells; ++i) {
+    double k = (double)c.strength[i] / std::max(std::fabs((double)c.pl[i] - (double)c.target[i]), (double)c.cutoff);
+    d.at(i, i) += k;
+    d.b[i] += k * (double)c.target[i];
+    d.babs[i] += std::fabs(k * (double)c.target[i]);
+  }
+  DenseSol s = denseSolve(d);
+  if (!s.ok) { out.count("PQ_skipped_singular"); return; }
+  double T = solverTolerance(s, c.tol) + s.normInvInf * 1e-5 * rhsMagnitude(d);
+  double scale = 1.0;
+  for (int i = 0; i < c.nbCells; ++i) scale = std::max(scale, std::fabs(s.x[i]));
+  bool sharp = T <= 1e-2 * scale;
+  out.count(sharp ? "PQ_tolerance_below_1pct_of_scale" : "PQ_tolerance_loose");
+  if (sharp) out.nontrivial(vh::hashStr("pq" + in));
+  std::vector<float> x = solveCase(c, 1.0f);
+  for (int i = 0; i < c.nbCells; ++i) {
+    if (!(std::fabs((double)x[i] - s.x[i]) <= T)) {
+      std::ostringstream os;
+      os << "solveWithPenalty (" << MODE_NAME[c.mode] << ", two-pin nets) puts cell " << i << " at " << fstr(x[i])
+         << " but the minimiser of the documented penalised quadratic has it at " << s.x[i] << " (allowed " << T << ")";
+      out.fail(id, os.str(), in);
+      return;
+    }
+  }
+}
+
 // one cell, net A {cell@oa, fixed a} weight wa >= 1, net B {cell@ob, fixed b} weight 0 < wb < 1
 static void gadgetOracle(vh::Out &out, const std::string &id, int mode, float a, float b, float wa, float wb, float pl0, float eps,
                          float oa, float ob) {
@@ -1595,6 +1681,11 @@ int main(int argc, char **argv) {
     vh::Rng g = vh::Rng::forCase(a.seed, 2000000 + i);
     Case c = genGeneral(g, out, 0);
     lsqOracle(out, "l" + std::to_string(i), c);
+  }
+  long long nPQ = a.thorough() ? 20000 : (a.search() ? 10000 : 1500);
+  for (long long i = 0; i < nPQ; ++i) {
+    vh::Rng g = vh::Rng::forCase(a.seed, 2600000 + i);
+    penalisedTwoPinOracle(out, "q" + std::to_string(i), g);
   }
   long long np = a.thorough() ? 200 : (a.search() ? 40 : 12);
   for (long long i = 0; i < np; ++i) {
